@@ -247,13 +247,22 @@ impl<'a> Digest<'a> {
                         }
                         Some(Op::Unsubscribe { store, sub }) => {
                             // resolved at Ret: `Ok` means unsubscribe() was really called (the
-                            // subscription existed); the first such call is the effective one
-                            // (calls on one subscription are serialised by the harness)
+                            // subscription existed). Calls on one subscription are serialised by the
+                            // harness, but their Ret events may be logged in any order, so which call
+                            // was the effective one is not observable: the unsubscription may have
+                            // begun at the earliest Inv of any such call, and it is certainly
+                            // complete at the earliest Ret (a later call only gets the slot after
+                            // the effective one has finished).
                             let inv = ops.get(&(*th, *ix)).map(|o| o.inv);
                             if let Some((_, iv)) = stores[*store].subs.iter_mut().find(|(s, _)| s == sub) {
-                                if matches!(res, Res::Ok) && iv.unsub_ret.is_none() {
-                                    iv.unsub_inv = inv;
-                                    iv.unsub_ret = Some(p);
+                                if matches!(res, Res::Ok) {
+                                    iv.unsub_inv = match (iv.unsub_inv, inv) {
+                                        (Some(a), Some(b)) => Some(a.min(b)),
+                                        (a, b) => a.or(b),
+                                    };
+                                    if iv.unsub_ret.is_none() {
+                                        iv.unsub_ret = Some(p);
+                                    }
                                 }
                             }
                         }
